@@ -218,6 +218,13 @@ func (lv *LeafVariants) GetHighestPrecedence(onlyNewOrUpdated bool, includeDefau
 		}
 	}
 
+	// if not only the new or updated entries are requested, the result is the value that will be active after the
+	// transaction. An entry that is marked for deletion (e.g. the intent got removed or no longer contains the leaf)
+	// must not be taken for it, the remaining highest precedence entry is.
+	if !onlyNewOrUpdated && checkExistsAndDeleteFlagSet(highest) && secondHighest != nil {
+		highest = secondHighest
+	}
+
 	// do not include defaults loaded at validation time
 	if checkNotDefaultAllowedButIsDefaultOwner(highest, includeDefaults) {
 		return nil
